@@ -1,6 +1,6 @@
 (* C07 — TaskGroup.start(): readiness handshake is exact and loses nothing.
    This file contains only statements closed by `exact` and their Print Assumptions. *)
-From AV Require Import Base Machine GroupInv GroupInv2 GroupThmsPure GroupThms GroupThms6 GroupThms7 GroupThms8 GroupThms10.
+From AV Require Import Base Machine GroupInv GroupInv2 GroupThmsPure GroupThms GroupThms6 GroupThms7 GroupThms8 GroupThms10 GroupThms11.
 
 Theorem C07_start_returns_started_value : forall s t g c f h v, reach s -> k_ctl (tasks s t) = CStartWait g c f ->
   (h = HStep t \/ exists f', h = HWake t f') -> snd (step s (ARun h)) = RRet v ->
@@ -79,3 +79,29 @@ Theorem C07_ctl_changes_only_when_acting : forall s o t, t < ntask s ->
   k_ctl (tasks (fst (step s o)) t) = k_ctl (tasks s t) /\ k_cur (tasks (fst (step s o)) t) = k_cur (tasks s t).
 Proof. exact ctl_changes_only_when_acting. Qed.
 Print Assumptions C07_ctl_changes_only_when_acting.
+
+(* a start future (owned by child c) changes to FRes v only in the step `AStarted c v`, performed by c while idle *)
+Theorem C07_start_value_origin : forall s o c f v, reach s -> k_startfut (tasks s c) = Some f ->
+  f_st (futs s f) <> FRes v -> f_st (futs (fst (step s o)) f) = FRes v ->
+  o = AStarted c v /\ idle s c = true /\ f_st (futs s f) = FPend.
+Proof. exact start_value_origin. Qed.
+Print Assumptions C07_start_value_origin.
+
+(* end to end, over a run: start() returns v only if an earlier op of the run is started(v) by the child, issued
+   while the child was idle (not finished) and its start future still pending *)
+Theorem C07_start_returns_only_after_started : forall ops t g c f h v,
+  k_ctl (tasks (final step init ops) t) = CStartWait g c f ->
+  (h = HStep t \/ exists f', h = HWake t f') -> snd (step (final step init ops) (ARun h)) = RRet v ->
+  exists pre post, ops = pre ++ AStarted c v :: post /\
+    idle (final step init pre) c = true /\ k_done (tasks (final step init pre) c) = None /\
+    k_startfut (tasks (final step init pre) c) = Some f /\ f_st (futs (final step init pre) f) = FPend.
+Proof. exact start_returns_only_after_started. Qed.
+Print Assumptions C07_start_returns_only_after_started.
+
+(* the join future of a caller in CStartJoin gets a value only in the step in which the child's coroutine ends *)
+Theorem C07_start_join_event_wakeup : forall s o t ch sc e f v, reach s ->
+  k_ctl (tasks s t) = CStartJoin ch sc e (Some f) -> f_st (futs s f) <> FRes v ->
+  f_st (futs (fst (step s o)) f) = FRes v ->
+  exists x, o = AFinish ch x /\ idle s ch = true /\ v = 1.
+Proof. exact start_join_event_wakeup. Qed.
+Print Assumptions C07_start_join_event_wakeup.
